@@ -34,6 +34,8 @@ CONSTANTS
   UserMayCancel = TRUE
   Kind = "%(Kind)s"
   NeedHead = %(Head)s
+  Src = "%(Src)s"
+  UW = %(UW)d
 INVARIANT TClausesOK
 INVARIANT C12_QueueSlotsConserved
 INVARIANT C05_CleanupRegisteredBeforeRun
@@ -122,7 +124,9 @@ GEOS = [('up-path-mp', {}), ('up-path-1', {}), ('delete', {}),
         ('up-path-mp', {'R': 2, 'RQ': 1, 'size': 7}), ('up-path-mp', {'R': 3, 'size': 4}),
         ('up-path-mp', {'R': 1, 'RQ': 2, 'size': 9}),
         ('copy-mp', {}), ('copy-1', {}), ('copy-mp', {'R': 1, 'RQ': 1, 'provide': True}),
-        ('copy-mp', {'R': 3, 'RQ': 2, 'size': 7})]
+        ('copy-mp', {'R': 3, 'RQ': 2, 'size': 7}),
+        ('up-ns-mp', {}), ('up-seek-mp', {}), ('up-ns-mp', {'R': 3, 'up_chunks': 1, 'size': 7}),
+        ('up-seek-mp', {'R': 1, 'RQ': 1, 'up_chunks': 3, 'size': 9})]
 
 
 def scenarios(name, over, rng, thorough):
@@ -142,6 +146,11 @@ def scenarios(name, over, rng, thorough):
     steps, ncalls = S.probe(sc0)
     nrand = 3 if thorough else 1
     jobs = S.det_schedules(sc0, 2 * nrand, rng)
+    if t0['kind'] == 'upload' and t0['size'] >= (sc0.get('cfg') or {}).get('threshold', 4):
+        for nth in range(1, 5):
+            sc = copy.deepcopy(sc0)
+            sc['faults'] = [{'on': 'src_read', 'nth': nth, 'x': 0}]
+            jobs += S.det_schedules(sc, nrand, rng)
     if t0['kind'] == 'download':
         chunk = (sc0.get('cfg') or {}).get('chunk', 2)
         envf = (('fs_write', 3), ('fs_rename', 1)) if t0.get('dst', 'path') == 'path' \
@@ -230,10 +239,11 @@ def validate(traces, geo):
         with open(path, 'w') as f:
             for t in traces:
                 f.write(json.dumps(t) + '\n')
-        if len(geo) == 5:
-            P, R, RQ, kind, head = geo
+        if len(geo) == 7:
+            P, R, RQ, kind, head, src, uw = geo
             module, tag = 'Pipeline_Trace', 'PLTRACE '
-            cfg = CFG % dict(P=P, R=R, RQ=RQ, Kind=kind, Head='TRUE' if head else 'FALSE')
+            cfg = CFG % dict(P=P, R=R, RQ=RQ, Kind=kind, Head='TRUE' if head else 'FALSE',
+                             Src=src, UW=uw)
         else:
             N, R, RQ, IOQ, A, head, old, dest, w, single = geo
             module, tag = 'Download_Trace', 'DLTRACE '
@@ -312,9 +322,10 @@ def run(ck, pid, tier, seed):
     for gi, (reached, r) in outs:
         geo, jobs = groups[gi]
         rs = {x['jid'][1]: x for x in bygroup[gi]}
-        if len(geo) == 5:
+        if len(geo) == 7:
             label = (f'Pipeline_Trace P={geo[0]} R={geo[1]} RQ={geo[2]} {geo[3]}'
-                     f'{"+head" if geo[4] else ""} x{len(rs)}')
+                     f'{"+head" if geo[4] else ""}{" stream UW=%d" % geo[6] if geo[5] == "stream" else ""} '
+                     f'x{len(rs)}')
         else:
             label = (f'Download_Trace N={geo[0]} R={geo[1]} RQ={geo[2]} IOQ={geo[3]} A={geo[4]} '
                      f'head={geo[5]} old={geo[6]} dest={geo[7]} W={geo[8]} single={geo[9]} x{len(rs)}')
@@ -354,7 +365,7 @@ def run(ck, pid, tier, seed):
             ck.violation(pid + '_PipelineConformance', {
                 'family': 'pipeline-conformance', 'geometry': list(geo),
                 'detail': f'event {rc[0]} of {rc[1]} is not a step of '
-                          + ('Pipeline.tla' if len(geo) == 5 else 'Download.tla'),
+                          + ('Pipeline.tla' if len(geo) == 7 else 'Download.tla'),
                 'at_event': {k: v for k, v in at.items() if v not in ('', 0)},
                 'before': [{k: v for k, v in e.items() if v not in ('', 0, True)}
                            for e in ev[max(0, rc[0] - 7):rc[0] - 1]],
